@@ -14,3 +14,4 @@ package iface
 //@   mode math
 //@   props C13
 //@   modifies nothing
+
